@@ -160,7 +160,7 @@ if __name__ == '__main__':
     cmd = sys.argv[1]
     if cmd == 'pcheck':
         from concurrent.futures import ThreadPoolExecutor
-        names = sorted(os.listdir(SEEDED)) if sys.argv[2:] in ([], ['all']) else sys.argv[2:]
+        names = sorted(n for n in os.listdir(SEEDED) if os.path.isdir(os.path.join(SEEDED, n))) if sys.argv[2:] in ([], ['all']) else sys.argv[2:]
         bad = 0
         with ThreadPoolExecutor(max_workers=int(os.environ.get('JOBS', '8'))) as ex:
             for r in ex.map(pcheck_one, names):
@@ -182,7 +182,7 @@ if __name__ == '__main__':
         print(json.dumps({k: v for k, v in r.items() if k != 'verification'}, indent=1)[:3000])
         sys.exit(0 if r.get('confirmed') else 1)
     if cmd == 'check':
-        names = sorted(os.listdir(SEEDED)) if sys.argv[2] == 'all' else [sys.argv[2]]
+        names = sorted(n for n in os.listdir(SEEDED) if os.path.isdir(os.path.join(SEEDED, n))) if sys.argv[2] == 'all' else [sys.argv[2]]
         for n in names:
             if not os.path.exists(os.path.join(SEEDED, n, 'meta.json')):
                 continue
